@@ -78,6 +78,11 @@ var c13marshal = Register("C13", "C13.marshal", func(a c13MarshalArgs) *Violatio
 	d := a.V.Dec()
 	n := a.V.Num()
 	b, err := d.MarshalJSON()
+	if err == nil {
+		if v := ownedBytes("MarshalJSON("+n.String()+")", b, func() []byte { r, _ := d.MarshalJSON(); return r }); v != nil {
+			return v
+		}
+	}
 	if n.Class != ref.Finite {
 		var uve *json.UnsupportedValueError
 		if err == nil || !errors.As(err, &uve) {
